@@ -32,7 +32,9 @@ Inductive pop :=
 | PStub (h : nat)                     (* handle.Return(..)/When(..): patches only if the mocker has no When yet *)
 | POrigin (h : nat) (ph : nat)        (* handle.Origin(&placeholder) *)
 | PCancel (h : nat)
-| PReset (b : nat).
+| PReset (b : nat)
+| PRejected (h : nat).                (* an instruction through handle h that goom refuses (ill-formed callback, bad origin
+                                         placeholder): it panics before the patch layer is reached and changes nothing *)
 
 Definition upd {A} (f : nat -> A) (k : nat) (v : A) : nat -> A := fun x => if Nat.eqb x k then v else f x.
 
@@ -145,6 +147,7 @@ Definition pstep (ntargets : nat) (s : pstate) (o : pop) : pstate :=
       end
   | PCancel h => match nth_error (phandles s) h with Some id => p_cancel s id | None => s end
   | PReset b => p_reset ntargets s b
+  | PRejected _ => s
   end.
 
 Definition pinit : pstate :=
